@@ -189,7 +189,12 @@ var ghostTableURI func(t *Table) string
 // selection that is closed downwards: if a table of level i is merged into the
 // base, every table of every deeper non-base level j > i is merged as well -
 // otherwise newer data ends up beneath older data for the same key.
+// ghostLevelOf witnesses that no table is listed in two levels of one layout (the precondition
+// "some function maps every listed table to its level" is exactly pairwise disjointness).
+var ghostLevelOf func(ll *LevelList, t *Table) int
+
 //@ define inList(ts, x) := exists(0, len(ts), func(pp_ int) bool { return ts[pp_] == x })
+//@ define lvlIn(ts, lvl) := forall(0, len(lvl.tables.l), func(aa_ int) bool { return inList(ts, lvl.tables.l[aa_]) })
 
 //@ func Compactor.majorCompaction
 //@   property C18
@@ -198,3 +203,54 @@ var ghostTableURI func(t *Table) string
 //@   ensures result1 == nil ==> result0 != nil && forall(0, len(levels.levels)-1, func(i int) bool { return forall(i+1, len(levels.levels)-1, func(j int) bool {
 //@           return forall(0, len(levels.levels[i].tables.l), func(a int) bool { return forall(0, len(levels.levels[j].tables.l), func(b int) bool {
 //@             return inList(result0.removals, levels.levels[i].tables.l[a]) ==> inList(result0.removals, levels.levels[j].tables.l[b]) }) }) }) })
+//@   requires forall(0, len(levels.levels), func(i int) bool { return forall(0, len(levels.levels[i].tables.l), func(a int) bool { return ghostLevelOf(levels, levels.levels[i].tables.l[a]) == i }) })
+//@   loop 0:
+//@     invariant forall(len(levels.levels)-1-idx_, len(levels.levels)-1, func(lv int) bool { return lvlIn(tablesToMerge, levels.levels[lv]) })
+//@     invariant forall(0, len(tablesToMerge), func(p int) bool { return exists(len(levels.levels)-1-idx_, len(levels.levels)-1, func(lv int) bool { return inList(levels.levels[lv].tables.l, tablesToMerge[p]) }) })
+//@   loop 1:
+//@     invariant same(level, levels.levels[len(levels.levels)-2-idx0_]) && len(tableIter) == len(level.tables.l)
+//@     invariant forall(len(levels.levels)-1-idx0_, len(levels.levels)-1, func(lv int) bool { return lvlIn(tablesToMerge, levels.levels[lv]) })
+//@     invariant forall(0, idx_, func(p int) bool { return inList(tablesToMerge, tableIter[p]) })
+//@     invariant forall(0, len(tablesToMerge), func(p int) bool { return exists(len(levels.levels)-2-idx0_, len(levels.levels)-1, func(lv int) bool { return inList(levels.levels[lv].tables.l, tablesToMerge[p]) }) })
+//@   loop 2:
+//@     invariant len(tablesToMerge) >= len(atentry(tablesToMerge)) && forall(0, len(atentry(tablesToMerge)), func(p int) bool { return tablesToMerge[p] == atentry(tablesToMerge)[p] })
+//@     invariant forall(len(atentry(tablesToMerge)), len(tablesToMerge), func(p int) bool { return inList(levels.levels[len(levels.levels)-1].tables.l, tablesToMerge[p]) })
+//@   loop 3:
+//@     invariant same(tablesToMerge, atentry(tablesToMerge))
+
+// AscendLevels(offset): the levels from the deepest one that is not skipped up to level 0.
+//@ func LevelList.AscendLevels
+//@   property C18
+//@   panics when offset > len(ll.levels)
+//@   requires 0 <= offset
+//@   modifies nothing
+//@   ensures seqlen(result) == len(ll.levels)-offset && forall(0, len(ll.levels)-offset, func(j int) bool { return same(seqat(result, j), ll.levels[len(ll.levels)-offset-1-j]) })
+//@   loop 0:
+//@     invariant len(out_) == idx_ && forall(0, idx_, func(j int) bool { return same(out_[j], ll.levels[len(ll.levels)-offset-1-j]) })
+
+//@ func ChangeSet.RemoveTables
+//@   property C18
+//@   modifies cs.removals
+//@   ensures len(cs.removals) == old(len(cs.removals)) + len(tables) && forall(0, old(len(cs.removals)), func(j int) bool { return cs.removals[j] == old(cs.removals)[j] }) &&
+//@           forall(0, len(tables), func(j int) bool { return cs.removals[old(len(cs.removals))+j] == tables[j] })
+
+//@ func ChangeSet.AddTables
+//@   property C18
+//@   modifies cs.additions
+//@   ensures len(cs.additions) == old(len(cs.additions)) + len(tables) && forall(0, old(len(cs.additions)), func(j int) bool { return same(cs.additions[j], old(cs.additions)[j]) }) &&
+//@           forall(0, len(tables), func(j int) bool { return cs.additions[old(len(cs.additions))+j].LevelNum == level && cs.additions[old(len(cs.additions))+j].Table == tables[j] })
+//@   loop 0:
+//@     invariant len(cs.additions) == old(len(cs.additions)) + idx_ && forall(0, old(len(cs.additions)), func(j int) bool { return same(cs.additions[j], old(cs.additions)[j]) }) &&
+//@               forall(0, idx_, func(j int) bool { return cs.additions[old(len(cs.additions))+j].LevelNum == level && cs.additions[old(len(cs.additions))+j].Table == tables[j] })
+
+// Frames of the merge pipeline used by compactions (assumed): opening a scan lazily loads
+// the table's own metadata, writing a run creates new tables and touches the writer only.
+//@ func Table.ScanPrefix
+//@   property C18
+//@   trusted
+//@   modifies Table.*
+
+//@ func TableWriter.WriteRun
+//@   property C18
+//@   trusted
+//@   modifies TableWriter.*, Table.*
